@@ -217,79 +217,115 @@ def eval_bool(test, asg):
 
 
 def decision_table(fnode):
-    """For a predicate-like function (if/return structure only) return (atoms, table) where
-    table maps each truth assignment (tuple of bools in atom order) to the returned expression node
-    or constant.  Raises AnalysisIncomplete on statements outside the if/return/docstring shape."""
+    """For a predicate-like function (assignments of boolean expressions to locals, if, return) return (atoms, table) where table maps each truth
+    assignment (tuple of bools in atom order) to ("const", value).  The function body is INTERPRETED for every assignment: locals hold the boolean they were
+    last assigned on the executed branch (result-variable style `ok = False; if a: ok = True; return ok` evaluates like early returns).
+    Raises AnalysisIncomplete on statements outside that shape."""
     atoms = []
-    # simple local definitions (name = expression) are inlined into the tests that use them
+    # locals bound exactly once to something that is not a boolean structure (conn = self.x.values, ok = a.equals(b)) are plain abbreviations: substituted
     import copy as _copy
-    local_defs = {}
+    counts, values = {}, {}
+    for n in ast.walk(fnode):
+        if isinstance(n, ast.Name) and isinstance(n.ctx, ast.Store):
+            counts[n.id] = counts.get(n.id, 0) + 1
+    for st in ast.walk(fnode):
+        if isinstance(st, ast.Assign) and len(st.targets) == 1 and isinstance(st.targets[0], ast.Name):
+            values[st.targets[0].id] = st.value
+    abbrev = {k: v for k, v in values.items() if counts.get(k) == 1 and not isinstance(v, (ast.BoolOp, ast.Compare, ast.Constant))
+              and not (isinstance(v, ast.UnaryOp) and isinstance(v.op, ast.Not))}
 
     class _Inline(ast.NodeTransformer):
         def visit_Name(self, node):
-            if isinstance(node.ctx, ast.Load) and node.id in local_defs:
-                return _copy.deepcopy(local_defs[node.id])
+            if isinstance(node.ctx, ast.Load) and node.id in abbrev:
+                return self.visit(_copy.deepcopy(abbrev[node.id]))
             return node
 
-    def _inl(expr):
-        return ast.fix_missing_locations(_Inline().visit(_copy.deepcopy(expr)))
-
-    def _prepare(stmts):
+    def _strip(stmts):
         out = []
         for st in stmts:
-            if isinstance(st, ast.Assign) and len(st.targets) == 1 and isinstance(st.targets[0], ast.Name):
-                local_defs[st.targets[0].id] = _inl(st.value)
+            if isinstance(st, ast.Assign) and len(st.targets) == 1 and isinstance(st.targets[0], ast.Name) and st.targets[0].id in abbrev:
                 continue
             if isinstance(st, ast.If):
-                st = ast.If(test=_inl(st.test), body=_prepare(st.body), orelse=_prepare(st.orelse))
+                st = ast.If(test=_Inline().visit(_copy.deepcopy(st.test)), body=_strip(st.body) or [ast.Pass()], orelse=_strip(st.orelse))
             elif isinstance(st, ast.Return) and st.value is not None:
-                st = ast.Return(value=_inl(st.value))
+                st = ast.Return(value=_Inline().visit(_copy.deepcopy(st.value)))
+            elif isinstance(st, ast.Assign):
+                st = ast.Assign(targets=st.targets, value=_Inline().visit(_copy.deepcopy(st.value)))
             out.append(st)
         return out
+    if abbrev:
+        fnode = ast.fix_missing_locations(ast.FunctionDef(name=fnode.name, args=fnode.args, body=_strip(list(fnode.body)), decorator_list=[], lineno=fnode.lineno, col_offset=0))
+    local_names = {k for k in counts if k not in abbrev}
 
-    fnode = ast.FunctionDef(name=fnode.name, args=fnode.args, body=_prepare(list(fnode.body)), decorator_list=[], lineno=fnode.lineno, col_offset=0)
+    def add_atoms(expr):
+        for a in bool_atoms(expr):
+            if isinstance(a, ast.Name) and a.id in local_names:
+                continue
+            if isinstance(a, ast.Constant):
+                continue
+            if norm(a) not in [norm(x) for x in atoms]:
+                atoms.append(a)
 
     def collect_atoms(stmts):
         for st in stmts:
             if isinstance(st, ast.If):
-                for a in bool_atoms(st.test):
-                    if norm(a) not in [norm(x) for x in atoms]:
-                        atoms.append(a)
+                add_atoms(st.test)
                 collect_atoms(st.body)
                 collect_atoms(st.orelse)
             elif isinstance(st, ast.Return):
                 if st.value is not None and isinstance(st.value, (ast.BoolOp, ast.UnaryOp, ast.Compare, ast.Call)):
-                    for a in bool_atoms(st.value):
-                        if norm(a) not in [norm(x) for x in atoms]:
-                            atoms.append(a)
+                    add_atoms(st.value)
+            elif isinstance(st, ast.Assign) and len(st.targets) == 1 and isinstance(st.targets[0], ast.Name):
+                if isinstance(st.value, (ast.BoolOp, ast.UnaryOp, ast.Compare, ast.Call)):
+                    add_atoms(st.value)
+                elif not isinstance(st.value, (ast.Constant, ast.Name)):
+                    raise AnalysisIncomplete(f"assignment of a non-boolean expression: {norm(st)[:60]}")
             elif isinstance(st, ast.Expr) and isinstance(st.value, ast.Constant):
                 continue
             elif isinstance(st, ast.Pass):
                 continue
             else:
-                raise AnalysisIncomplete(f"statement outside the if/return shape: {norm(st)[:60]}")
+                raise AnalysisIncomplete(f"statement outside the assign/if/return shape: {norm(st)[:60]}")
 
     collect_atoms(fnode.body)
     if len(atoms) > 12:
         raise AnalysisIncomplete("too many atoms for a truth table")
 
-    def run(stmts, asg):
+    def ev(expr, asg, env):
+        if isinstance(expr, ast.Constant):
+            return expr.value
+        if isinstance(expr, ast.Name) and expr.id in local_names:
+            if expr.id not in env:
+                raise AnalysisIncomplete(f"local {expr.id} read before assignment on some path")
+            return env[expr.id]
+        if isinstance(expr, ast.UnaryOp) and isinstance(expr.op, ast.Not):
+            return not ev(expr.operand, asg, env)
+        if isinstance(expr, ast.BoolOp):
+            # Python semantics: and/or return an operand; all operands here are booleans, so the result is their conjunction / disjunction
+            vals = [ev(v, asg, env) for v in expr.values]
+            return all(vals) if isinstance(expr.op, ast.And) else any(vals)
+        k = norm(expr)
+        if k not in asg:
+            raise AnalysisIncomplete(f"atom without truth value: {k}")
+        return asg[k]
+
+    def run(stmts, asg, env):
         for st in stmts:
             if isinstance(st, ast.If):
-                r = run(st.body if eval_bool(st.test, asg) else st.orelse, asg)
+                r = run(st.body if ev(st.test, asg, env) else st.orelse, asg, env)
                 if r is not None:
                     return r
+            elif isinstance(st, ast.Assign):
+                env[st.targets[0].id] = ev(st.value, asg, env)
             elif isinstance(st, ast.Return):
                 if st.value is None:
                     return ("const", None)
-                if isinstance(st.value, ast.Constant):
-                    return ("const", st.value.value)
-                return ("const", eval_bool(st.value, asg))
+                return ("const", ev(st.value, asg, env))
         return None
 
     table = {}
     for vals in itertools.product([True, False], repeat=len(atoms)):
         asg = {norm(a): v for a, v in zip(atoms, vals)}
-        r = run(fnode.body, asg)
+        r = run(fnode.body, asg, {})
         table[vals] = r if r is not None else ("const", None)
     return atoms, table
